@@ -171,6 +171,7 @@ func (tw *TimingWheel) drainAll(fn func(key, value any)) {
 			slot.Remove(e)
 			e = next
 			if !task.removed {
+				tw.timers.Del(task.key)
 				runner.Schedule(func() {
 					fn(task.key, task.value)
 				})
